@@ -193,6 +193,10 @@ def main(argv=None):
     for o in obligations:
         if o['verdict'] == 'fixed?':
             print('NOTE property=%s witness %s of finding %s no longer fails (fixed?)' % (pid, o['name'], o['finding']))
+    for o in obligations:
+        if o['verdict'] == 'spurious-counterexample':
+            print('SPURIOUS property=%s %s: solver counterexample did not reproduce on the plain package: %s' % (
+                pid, o['name'], (o['replays'] or [{}])[0].get('call')))
     for path in violations:
         print('VIOLATION property=%s replay=%s' % (pid, path))
 
